@@ -179,7 +179,7 @@ claim("C18", "DESIGN.md §2 C18",
       "Histories of up to 20 (thorough 30) ops run against the real BlobManager and SQLiteStorage in a temp dir: blob completion through a "
       "writer with or without losing the database write, real stream publish with a crash after k database writes, remote streams leaving "
       "pending rows, API deletions (also crashed after j file removals), files removed / dropped in behind the manager's back (known, "
-      "pending, unknown, invalid names, >500 files to cross the batch flush), rows deleted, clean and unclean restarts, repeated restarts. "
+      "pending, unknown - incl. oversized, symlinked, and names made of digits or letters only -, invalid names, >500 files to cross the batch flush), rows deleted, clean and unclean restarts, repeated restarts. "
       "After every restart: completed_blob_hashes is a subset of the files, every valid-named file has a finished row, every formerly "
       "finished row without file is pending, an immediately repeated restart reports exactly the files, what the announcer is handed "
       "(get_blobs_to_announce) has its file; the manager may share the DHT node's data store across in-process restarts; after an API deletion the hash is "
